@@ -18,9 +18,12 @@ import (
 	"encoding/pem"
 	"errors"
 	"fmt"
+	"math/big"
 	"net"
+	"net/url"
 	"sort"
 	"strings"
+	"time"
 
 	"github.com/hashicorp/consul/acl"
 	"github.com/hashicorp/consul/agent/connect"
@@ -395,7 +398,9 @@ type World struct {
 	pre    M
 	preCmd M
 
-	raceArmed bool // commit a competing CAOpSetRoots ahead of the manager's next roots-bearing request
+	conf      map[string]any        // CA configuration in force (last successful UpdateConfiguration)
+	named     map[string]*namedRoot // operator-supplied roots ("A", "B"): same key and certificate every time
+	raceArmed bool                  // commit a competing CAOpSetRoots ahead of the manager's next roots-bearing request
 	raceFired bool
 	inRace    bool
 }
@@ -518,10 +523,14 @@ func (w *World) beforeApply(req *structs.CARequest) {
 		d := *r
 		cp = append(cp, &d)
 	}
-	w.raceArmed, w.raceFired, w.inRace = false, true, true
+	w.raceArmed, w.inRace = false, true
 	defer func() { w.inRace = false }()
-	if _, err := w.Del.ApplyCARequest(&structs.CARequest{Op: structs.CAOpSetRoots, Index: ridx, Roots: cp}); err != nil {
-		panic(fmt.Sprintf("racing root write failed: %v", err))
+	// The competing write is recorded as an event of its own (via = "race"). If the store refuses it - it can,
+	// when the implementation has already left the root set in a state the store itself rejects - the fault
+	// simply did not fire; nothing is decided here.
+	resp, err := w.Del.ApplyCARequest(&structs.CARequest{Op: structs.CAOpSetRoots, Index: ridx, Roots: cp})
+	if ok, isBool := resp.(bool); err == nil && isBool && ok {
+		w.raceFired = true
 	}
 }
 
@@ -651,29 +660,94 @@ func (w *World) projectLeaf(reply *structs.IssuedCert, sent []string) (M, error)
 	return res, nil
 }
 
-// Reconfigure goes through the real CAManager.UpdateConfiguration. rotate=true changes the key
-// parameters (new provider id, new root, cross-signing, CAOpSetRootsAndConfig); rotate=false changes
-// only the leaf TTL (same root, CAOpSetConfig). race arms the RacingRootWrite fault for this call.
-// Afterwards a probe leaf (one plain service identity, write granted) is requested from the manager
-// as it now is and projected like any other leaf.
-func (w *World) Reconfigure(rotate, race bool) (M, error) {
+// namedRoot is operator-supplied root material: a private key and a self-signed CA certificate built
+// like ConsulProvider.generateCA builds its own (signing SPIFFE ID of the cluster, CA key usages).
+// Configuring the built-in provider with the same PrivateKey + RootCert again yields the same root
+// (same certificate, same root ID) - that is how an operator rolls a rotation back.
+type namedRoot struct {
+	Key, Cert, ID string
+}
+
+func (w *World) namedRoot(name string) (*namedRoot, error) {
+	if nr, ok := w.named[name]; ok {
+		return nr, nil
+	}
+	signer, keyPEM, err := connect.GeneratePrivateKey()
+	if err != nil {
+		return nil, err
+	}
+	keyID, err := connect.KeyId(signer.Public())
+	if err != nil {
+		return nil, err
+	}
+	// serial numbers of operator-supplied roots are outside the CA's own counter; 1 and 2 are below
+	// everything the counter hands out (it starts above the provider table's first index)
+	sn := int64(1 + len(w.named))
+	tpl := x509.Certificate{
+		SerialNumber:          big.NewInt(sn),
+		Subject:               pkix.Name{CommonName: "verif supplied root " + name},
+		URIs:                  []*url.URL{connect.SpiffeIDSigningForCluster(ClusterID).URI()},
+		BasicConstraintsValid: true,
+		KeyUsage:              x509.KeyUsageCertSign | x509.KeyUsageCRLSign | x509.KeyUsageDigitalSignature,
+		IsCA:                  true,
+		NotBefore:             time.Now().Add(-time.Minute),
+		NotAfter:              time.Now().Add(87600 * time.Hour),
+		AuthorityKeyId:        keyID,
+		SubjectKeyId:          keyID,
+	}
+	der, err := x509.CreateCertificate(rand.Reader, &tpl, &tpl, signer.Public(), signer)
+	if err != nil {
+		return nil, err
+	}
+	nr := &namedRoot{Key: keyPEM, Cert: string(pem.EncodeToMemory(&pem.Block{Type: "CERTIFICATE", Bytes: der})),
+		ID: connect.CalculateCertFingerprint(der)}
+	if w.named == nil {
+		w.named = map[string]*namedRoot{}
+	}
+	w.named[name] = nr
+	return nr, nil
+}
+
+// Reconfigure goes through the real CAManager.UpdateConfiguration.
+//   - rotate, to = "fresh": new key parameters (new provider id, generated key, new root, cross-signing,
+//     CAOpSetRootsAndConfig);
+//   - rotate, to = "A" | "B": the built-in provider configured with the supplied PrivateKey + RootCert of that
+//     named root - a root that may already be in the root set (rolling a rotation back) or even be the active one;
+//   - rotate=false: only the leaf TTL changes (same root, CAOpSetConfig).
+//
+// race arms the RacingRootWrite fault for this call. Afterwards a probe leaf (one plain service identity,
+// write granted) is requested from the manager as it now is and projected like any other leaf.
+func (w *World) Reconfigure(rotate bool, to string, race bool) (M, error) {
 	w.nconf++
 	bits := w.bits
-	if rotate {
+	ttl := fmt.Sprintf("%dh", 72+w.nconf)
+	target := ""
+	var conf map[string]any
+	switch {
+	case rotate && to != "" && to != "fresh":
+		nr, err := w.namedRoot(to)
+		if err != nil {
+			return nil, fmt.Errorf("%w: supplied root: %v", ErrInfra, err)
+		}
+		target = nr.ID
+		conf = baseCAConfig(keyBitsCycle[0], ttl)
+		conf["PrivateKey"], conf["RootCert"] = nr.Key, nr.Cert
+	case rotate:
 		bits = (w.bits + 1) % len(keyBitsCycle)
+		conf = baseCAConfig(keyBitsCycle[bits], ttl)
+	default:
+		conf = w.lastConf(ttl)
 	}
-	req := &structs.CARequest{Config: &structs.CAConfiguration{
-		Provider: structs.ConsulCAProvider,
-		Config:   baseCAConfig(keyBitsCycle[bits], fmt.Sprintf("%dh", 72+w.nconf)),
-	}}
+	req := &structs.CARequest{Config: &structs.CAConfiguration{Provider: structs.ConsulCAProvider, Config: conf}}
 	w.raceArmed, w.raceFired = race, false
 	err := w.Mgr.UpdateConfiguration(req)
 	w.raceArmed = false
-	res := M{"t": "ok", "raced": w.raceFired}
+	res := M{"t": "ok", "raced": w.raceFired, "target": target}
 	if err != nil {
 		res["t"], res["msg"] = "err", err.Error()
 	} else {
 		w.bits = bits
+		w.conf = conf
 	}
 	res["signing_root"] = w.Mgr.VerifActiveProviderRootID()
 	probe, perr := w.Sign(M{"csr": M{"uris": []any{M{"kind": "service", "td": "own", "dc": "own", "name": "web", "enc": "plain", "ap": "none"}},
@@ -684,6 +758,20 @@ func (w *World) Reconfigure(rotate, race bool) (M, error) {
 	}
 	res["probe"] = probe
 	return res, nil
+}
+
+// lastConf is the configuration in force with another leaf TTL (a change that keeps the root).
+func (w *World) lastConf(ttl string) map[string]any {
+	out := map[string]any{}
+	src := w.conf
+	if src == nil {
+		src = baseCAConfig(keyBitsCycle[0], "72h")
+	}
+	for k, v := range src {
+		out[k] = v
+	}
+	out["LeafCertTTL"] = ttl
+	return out
 }
 
 // Raw applies one replicated CA command of the roots profile exactly as the FSM would: msgpack
